@@ -1,4 +1,5 @@
 import MLProps.Bridge
+import MLGen.Funcs
 import Mathlib.Data.List.MinMax
 /-!
 # C16 — threshold calibration picks an optimal cut-off
@@ -185,24 +186,25 @@ theorem C16_tnr_optimal (r : ℝ) (ds : List ℝ) (labels : List Bool) (b : ℝ)
   obtain ⟨h1, h2⟩ := C16_calibrate_optimal _ ds labels b hb
   refine ⟨by simpa [Strategy.feas] using h1, fun t ht => h2 t (by simpa [Strategy.feas] using ht)⟩
 
-/-- invalid strategy / min_rate / beta are rejected -/
+/-- invalid strategy / min_rate / beta are rejected: exact characterisation of the *generated*
+transcription of `_validate_calibration_params` (MLGen/Funcs.lean, regenerated every run) -/
 theorem C16_params_rejected (strategy : String) (minRate beta : PyNum ℝ) :
-    validateCalib strategy minRate beta = true ↔
+    MLGen.validateCalibrationParams strategy minRate beta = .ok () ↔
       ((strategy = "accuracy") ∨
        (strategy = "f_beta" ∧ ∃ x, beta = .num x) ∨
        ((strategy = "max_tpr" ∨ strategy = "max_tnr") ∧ ∃ r, minRate = .num r ∧ 0 ≤ r ∧ r ≤ 1)) := by
-  unfold validateCalib
+  unfold MLGen.validateCalibrationParams
   by_cases h1 : strategy = "accuracy"
   · subst h1; simp
   by_cases h2 : strategy = "f_beta"
   · subst h2
-    cases beta <;> simp [PyNum.isNum]
+    cases beta <;> simp [PyNum.isNum, PyNum.isNone]
   by_cases h3 : strategy = "max_tpr"
   · subst h3
-    cases minRate <;> simp [PyNum.badRate]
+    cases minRate <;> simp [PyNum.isNum, PyNum.isNone, PyNum.val]
   by_cases h4 : strategy = "max_tnr"
   · subst h4
-    cases minRate <;> simp [PyNum.badRate]
+    cases minRate <;> simp [PyNum.isNum, PyNum.isNone, PyNum.val]
   simp [h1, h2, h3, h4]
 
 /-! non-vacuity: tied distances with conflicting labels; the optimum accepts the tie group -/
